@@ -122,8 +122,3 @@ Proof.
   intros Hcap Hn. pose proof (gen_arrayvec_push_capped T cap n arr v Hcap Hn) as H. unfold capped_push.
   destruct (cap <=? len (gen_arrayvec_deref T n arr)); exact H.
 Qed.
-
-(** truncate: shortens the visible part, asserts that it does not lengthen it. *)
-Theorem gen_arrayvec_truncate_spec cur n :
-  gen_arrayvec_truncate cur n = if n <=? cur then Ok (n, tt) else Panic "src/util.rs: assert! in truncate".
-Proof. reflexivity. Qed.
